@@ -98,7 +98,9 @@ func runC18(c *eng.Ctx) {
 		key := "next(range((*synchronization/core.Entry).GetContents(p2)))#1"
 		ok := eng.Render(a[0]) == "(*synchronization/core.Entry).GetContents(p0)["+key+"]" &&
 			eng.Render(a[1]) == "(*synchronization/core.Entry).GetContents(p1)["+key+"]" &&
-			eng.Render(a[2]) == "(*synchronization/core.Entry).GetContents(p2)["+key+"]"
+			(eng.Render(a[2]) == "(*synchronization/core.Entry).GetContents(p2)["+key+"]" ||
+				// `for name, child := range targetContents`: the range value IS targetContents[name]
+				eng.Render(a[2]) == "next(range((*synchronization/core.Entry).GetContents(p2)))#2")
 		c.Check("R1", "recursion-by-name", call.Pos(), ok, "children are visited by the target's names with ancestor/source/target kept in their roles", eng.RenderCall(call.Common())[:min(200, len(eng.RenderCall(call.Common())))])
 	}
 	c.Floor("R1", 7)
@@ -112,7 +114,10 @@ func runC18(c *eng.Ctx) {
 			c.Check("R2", "works-on-deep-copy", call.Pos(), eng.Render(a[2]) == want && eng.Render(a[0]) == "p0" && eng.Render(a[1]) == "p1", "the in-place propagation runs on a deep copy of the target, with ancestor and source passed through", eng.RenderCall(call.Common()))
 		}
 		for _, r := range eng.Returns(pub) {
-			c.Check("R2", "returns-the-copy", r.Pos(), eng.Render(eng.RetResults(r)[0]) == want, "the copy is returned")
+			rv := eng.RetResults(r)[0]
+			// (a nil target has a nil copy: returning nil under target == nil is the same value)
+			nilForNil := eng.IsNilConst(rv) && eng.HasAtom(eng.Guards(r), `^\(p2 == nil\)$`, true)
+			c.Check("R2", "returns-the-copy", r.Pos(), eng.Render(rv) == want || nilForNil, "the copy is returned")
 		}
 	}
 	c.Floor("R2", 2)
